@@ -13,6 +13,9 @@ def skeletons():
     for fmt, sep, trail, rep in itertools.product(FMTS, SEPS, ("0", "1"), ("0", "1")):
         yield dict(VB_FMT=fmt, VB_SEP=sep, VB_TRAIL=trail, VB_REP=rep), "%s,sep=%s,trailing=%s,%s" % (
             fmt, SEPNAME[sep], trail, "repeated-keys" if rep == "1" else "comma-list")
+        if fmt == "gff3":   # key="value": the '=' style with quoted values
+            yield dict(VB_FMT=fmt, VB_SEP=sep, VB_TRAIL=trail, VB_REP=rep, VB_QUOTED="1"), "gff3-quoted,sep=%s,trailing=%s,%s" % (
+                SEPNAME[sep], trail, "repeated-keys" if rep == "1" else "comma-list")
 
 
 def roundtrip_specs(tier, shapes, tag):
